@@ -3,7 +3,7 @@ package influxql
 // Bounded stand-in for the clauses of C12 that the contracts do not reach (the
 // expansion loops of RewriteFields have safety and frame contracts only).
 // Bound: 4 schemas (one and two measurements, overlapping field names with
-// conflicting types including unsigned, tags shadowing fields, many tags) x 12
+// conflicting types including unsigned, tags shadowing fields, many tags) x 15
 // statements (whole-field wildcards with and without type filter, regex fields,
 // wildcard and regex GROUP BY, wildcards inside one and two calls, untyped
 // references) x 25 repetitions (map iteration order). Oracle written from the
@@ -13,6 +13,7 @@ package influxql
 
 import (
 	"fmt"
+	"regexp"
 	"sort"
 	"strings"
 	"testing"
@@ -56,7 +57,7 @@ func (m c12mapper) MapType(mm *Measurement, field string) DataType {
 var c12rank = map[DataType]int{Float: 9, Integer: 8, Unsigned: 7, String: 6, Boolean: 5, Time: 4, Duration: 3, Tag: 2, AnyField: 1, Unknown: 0}
 
 func TestZZBoundedC12(t *testing.T) {
-	fmt.Println("BOUNDED-BOUND: 4 schemas x 14 statements x 25 repetitions; oracle: sorted matching columns with the highest-precedence type, tags out of calls and out of grouped fields, identical text on every repetition")
+	fmt.Println("BOUNDED-BOUND: 4 schemas x 15 statements x 25 repetitions; oracle: sorted matching columns with the highest-precedence type, tags out of calls and out of grouped fields, identical text on every repetition")
 	type ms = struct {
 		fields map[string]DataType
 		tags   []string
@@ -73,6 +74,7 @@ func TestZZBoundedC12(t *testing.T) {
 		"SELECT mean(*) FROM %s", "SELECT count(*), mean(*) FROM %s", "SELECT max(/v|w/) FROM %s",
 		"SELECT v, w FROM %s", "SELECT * FROM (SELECT v, w FROM %s)",
 		"SELECT cumulative_sum(derivative(mean(*))) FROM %s GROUP BY time(1m)", "SELECT derivative(mean(/v|w/)) FROM %s GROUP BY time(1m)",
+		"SELECT mean(v) FROM (SELECT host, v FROM %s GROUP BY host, region) GROUP BY *",
 	}
 	total, ok := 0, 0
 	fails := map[string]int{}
@@ -163,6 +165,24 @@ func TestZZBoundedC12(t *testing.T) {
 				if _, have := fieldT["v"]; !have {
 					want = ""
 				}
+			case 6: // SELECT /v|w|host/: a regex standing as a whole field expands to the matching fields and tag keys
+				re := regexp.MustCompile("v|w|host")
+				for k, v := range fieldT {
+					if re.MatchString(k) {
+						cols = append(cols, k+"::"+v.String())
+					}
+				}
+				for tg := range tagSet {
+					if re.MatchString(tg) {
+						cols = append(cols, tg+"::tag")
+					}
+				}
+				sort.Strings(cols)
+				want = "SELECT " + strings.Join(cols, ", ") + " FROM " + from
+			case 14: // the GROUP BY keys of a subquery are the tag keys an outer GROUP BY * expands to, selected or not
+				if !strings.HasPrefix(outs[0], "error") && !strings.HasSuffix(outs[0], " GROUP BY host, region") {
+					fail("subquery-dimensions-lost", fmt.Sprintf("schema %d: %q -> %q", si, text, outs[0]))
+				}
 			case 7, 8, 9: // calls: no tag may be expanded inside a call
 				for tg := range tagSet {
 					if _, isField := fieldT[tg]; !isField && strings.Contains(outs[0], "("+tg+"::tag)") {
@@ -174,7 +194,7 @@ func TestZZBoundedC12(t *testing.T) {
 				}
 			}
 			// a wildcard or regex that stands as (possibly nested) first call argument is always replaced or removed
-			if qi >= 12 && (strings.Contains(outs[0], "(*)") || strings.Contains(outs[0], "(/")) {
+			if qi >= 12 && qi <= 13 && (strings.Contains(outs[0], "(*)") || strings.Contains(outs[0], "(/")) {
 				numeric := false
 				for _, v := range fieldT {
 					if v == Float || v == Integer || v == Unsigned {
